@@ -177,6 +177,21 @@ func (s *LinearState) Add(ctx *Context, id string, x Map) (string, error) {
 		return id, err
 	}
 
+	// What the id holds might have expired and just not been purged
+	// yet.  Then this is not an overwrite: purge it, and what goes
+	// with it (its properties, like a rule's 'disabled' flag, and its
+	// other dependents), as any reader would have done.
+	s.slock(ctx, true)
+	old, have := s.Facts[id]
+	s.sunlock(ctx, true)
+	if have {
+		if expired, _ := checkExpiration(ctx, old.M, 0); expired {
+			if _, err = s.rem(ctx, id, true); err != nil {
+				return id, err
+			}
+		}
+	}
+
 	// Persist the prepared fact (absolute 'expires', no 'ttl'), not
 	// the caller's map: Load does not prepare facts again.
 	bs, err := json.Marshal(&m)
